@@ -190,7 +190,8 @@ impl Body for VisBody {
                                     tx.commit().map_err(|e| format!("{e:?}"))?.map_err(|_| "conflict".to_string())?;
                                 }
                             },
-                            Act::Ins((ks, k, v)) => kss[ks].insert(*k, *v).map_err(|e| format!("{e:?}"))?,
+                            // value "-" = remove
+                            Act::Ins((ks, k, v)) => if *v == "-" { kss[ks].remove(*k) } else { kss[ks].insert(*k, *v) }.map_err(|e| format!("{e:?}"))?,
                             Act::SnapRead(keys) => {
                                 let snap = db.inner().snapshot();
                                 let mut out = vec![];
